@@ -10,7 +10,7 @@ use crate::internal::streamname::{
 };
 use crate::internal::stringpool::{StringPool, StringPoolBuilder};
 use crate::internal::summary::SummaryInfo;
-use crate::internal::table::{Rows, Table};
+use crate::internal::table::{Rows, Table, MAX_NUM_TABLE_ROWS};
 use crate::internal::value::{Value, ValueRef};
 use cfb;
 use std::borrow::Borrow;
@@ -733,6 +733,28 @@ impl<F: Read + Write + Seek> Package<F> {
                     "Table {:?} is already described in the {:?} table",
                     table_name,
                     catalog_name
+                );
+            }
+        }
+        // The catalog tables are limited like any other table; make sure that
+        // each of them can take its new rows.
+        for (catalog_name, num_new_rows) in [
+            (COLUMNS_TABLE_NAME, columns.len()),
+            (TABLES_TABLE_NAME, 1),
+            (VALIDATION_TABLE_NAME, columns.len()),
+        ] {
+            if !self.tables.contains_key(catalog_name) {
+                continue;
+            }
+            let num_rows =
+                self.select_rows(Select::table(catalog_name))?.len();
+            if num_rows + num_new_rows > MAX_NUM_TABLE_ROWS {
+                invalid_input!(
+                    "Cannot create table {:?}: table {:?} cannot hold more \
+                     than {} rows",
+                    table_name,
+                    catalog_name,
+                    MAX_NUM_TABLE_ROWS
                 );
             }
         }
